@@ -164,7 +164,13 @@ def check(ctx, mod, fn):
                 probs.append('the joint-membership matrix starts at val[%s], inside the membership vectors val[0, ne+nec)%s: a degree is overwritten before it is read' % (base, w))
             elif not a.prove_eq(base, ne + nec, facts):
                 probs.append('the joint-membership matrix starts at val[%s] instead of val[ne+nec]: with ne = nec = n it ends behind the n(2+n) reals of the buffer' % base)
-    if len(ist) != 1 or len(ist[0][1]) != 1:
+    # the row offset idx[i] * nrule into the gain tables is formed either once, in place (idx[i] *= nrule), or where the tables are
+    # read; F5c accepts the index form that goes with what is found here
+    scaled = len(ist) == 1
+    nrule_off = [k_ for k_, v_ in fields.items() if v_ == 'nrule']
+    if len(ist) == 0:
+        pass
+    elif len(ist) != 1 or len(ist[0][1]) != 1:
         probs.append('expected one scaling statement for idx, found %d' % len(ist))
     else:
         (s2, l2) = ist[0]
@@ -235,8 +241,19 @@ def check(ctx, mod, fn):
         tix = sp.expand(rest.args[1])
         parts = [t for t in tix.atoms(sp.Function) if t.func == ld and str(t.args[0]) == 'F_idx']
         got = set(sp.expand(t.args[1]) for t in parts)
-        if sp.expand(tix - sum(parts)) != 0 or got != {sp.expand(ci), sp.expand(ne + cii)}:
-            probs.append('gain table %s is indexed with %s, expected idx[i] + idx[ne+ii]' % (tb, tix))
+        if scaled:
+            okx = sp.expand(tix - sum(parts)) == 0 and got == {sp.expand(ci), sp.expand(ne + cii)}
+        else:
+            # unscaled rows: idx[i] * nrule + idx[ne+ii] with nrule read from the controller
+            row = [t for t in parts if sp.expand(t.args[1] - ci) == 0]
+            col = [t for t in parts if sp.expand(t.args[1] - (ne + cii)) == 0]
+            okx = False
+            if len(row) == 1 and len(col) == 1 and len(parts) == 2:
+                restx = sp.expand(tix - col[0])
+                q_ = sp.cancel(restx / row[0])
+                okx = q_.func == ld and q_.args[0] == cx and (not nrule_off or sp.expand(q_.args[1] * 4) in [sp.Integer(o_) for o_ in nrule_off] or sp.expand(q_.args[1]) in [sp.Integer(o_) for o_ in nrule_off])
+        if not okx:
+            probs.append('gain table %s is indexed with %s, expected %s' % (tb, tix, 'idx[i] + idx[ne+ii]' if scaled else 'idx[i] * nrule + idx[ne+ii]'))
     if nfold < 4 or not {'sum', 'mkp', 'mki', 'mkd'} <= tables:
         rep.unk('F5c', fn.name, 'expected the normaliser and three gain accumulations, recognised %s' % sorted(tables), loc=loc)
     elif probs:
